@@ -68,6 +68,12 @@ def compare(prog, case, real, spans, backend):
                 return "caught-position", {"what": what, "got": val, "span": sp}
             if what == "filename" and val != "main":
                 return "caught-position", {"what": what, "got": val}
+    # triggers registered with the host, in order, with their arguments
+    want_tr = P.expected_triggers(case["out"])
+    if want_tr or r.get("triggers"):
+        got_tr = [(t["cb"], t["ev"], t["args"]) for t in r.get("triggers", [])]
+        if got_tr != want_tr:
+            return "triggers", {"expected": want_tr, "got": got_tr}
     # outcome
     st = case["status"]
     if st == "done":
@@ -109,7 +115,11 @@ def run_programs(programs, rep, backends=("vm",), limits=None, pool=None, family
         src, spans = P.render(p)
         rendered[p["id"]] = (src, spans)
         for b in backends:
+            if b == "tree" and p["feats"].get("vm_only"):
+                continue
             a = {"modules": {"main": src}, "entry": "main", "backend": b, "timeout_ms": 8000}
+            if p.get("host"):
+                a["singletons"] = p["host"]
             if b == "vm" and vm_trace and vm_trace(p):
                 a["trace"] = True
                 a["trace_instr"] = True
